@@ -269,6 +269,19 @@ async def run_injected(flavor: str, ctype: str, shape: str, context: str, inject
                 return False
             seen_at.setdefault("n0", n)
             return n >= seen_at["n0"] + j - 1
+    elif inject is not None and inject[0] == "trace-raise+cancel":
+        # the victim's trace callback raises (the request fails, the connection is fine), and a one-shot task cancellation
+        # arrives at the j-th suspension point the victim reaches afterwards - inside its clean-up when the callback awaits
+        sc.trace_raise = (inject[1], inject[2])
+        j = inject[3]
+        style = "native"
+        seen_at = {}
+
+        def k(n):
+            if sc.trace_raise_fired is None:
+                return False
+            seen_at.setdefault("n0", n)
+            return n >= seen_at["n0"] + j - 1
     elif inject is not None and inject[0] == "trace-raise":
         # the victim's own trace callback raises at the n-th event with the given suffix: a failure between two steps of
         # the library, at a place where no network operation and no suspension point need be
@@ -364,6 +377,8 @@ async def run_injected(flavor: str, ctype: str, shape: str, context: str, inject
         res["fired"] = bool(net.fault_fired)
     if inject and inject[0] == "fault+cancel":
         res["fault_fired"] = bool(net.fault_fired)
+    if inject and inject[0] == "trace-raise+cancel":
+        res["fault_fired"] = sc.trace_raise_fired is not None
     if inject and inject[0] == "trace-raise":
         res["fired"] = sc.trace_raise_fired is not None
         res["inj_phase"] = sc.trace_raise_fired
